@@ -13,6 +13,7 @@ import (
 	_ "fxmc/props/c09"
 	_ "fxmc/props/c10"
 	_ "fxmc/props/c11"
+	_ "fxmc/props/c12"
 	_ "fxmc/props/c13"
 	_ "fxmc/props/c14"
 	_ "fxmc/props/c15"
